@@ -39,21 +39,21 @@ type txObs struct {
 
 // blockObs is the ledger around one block.
 type blockObs struct {
-	Height   int64
-	BaseFee  *big.Int // base fee in force while the block executed
-	Txs      []txObs
-	Pre      map[string]map[string]*big.Int // addr(hex) -> denom -> balance, before the block (after previous commit)
-	Post     map[string]map[string]*big.Int
-	SupPre   map[string]*big.Int
-	SupPost  map[string]*big.Int
-	NoncePre map[string]uint64
-	NoncePost map[string]uint64
-	Panic    string
-	Err      error
-	NextBase *big.Int
-	GasUsedBlock uint64
+	Height            int64
+	BaseFee           *big.Int // base fee in force while the block executed
+	Txs               []txObs
+	Pre               map[string]map[string]*big.Int // addr(hex) -> denom -> balance, before the block (after previous commit)
+	Post              map[string]map[string]*big.Int
+	SupPre            map[string]*big.Int
+	SupPost           map[string]*big.Int
+	NoncePre          map[string]uint64
+	NoncePost         map[string]uint64
+	Panic             string
+	Err               error
+	NextBase          *big.Int
+	GasUsedBlock      uint64
 	ContractsAlivePre map[string]bool
-	AppHash []byte
+	AppHash           []byte
 }
 
 var ledgerDenoms = []string{world.Denom, "utwo", "uthree"}
